@@ -825,6 +825,12 @@ func (w *clusterWorld) replay(ctx context.Context, b vlib.Behaviour) {
 			fail("standalone-"+sig+"-after-"+op, "%s", msg)
 			return
 		}
+		if op == "write" && i+1 < len(b.States) && vlib.Str(vlib.Map(b.States[i+1], "last"), "op") == "write" {
+			// consecutive batches pile up in the liaison's write queue: one flush round then sees several memory
+			// parts per time segment; delivery is awaited after the last batch of the run of writes
+			w.res.Inc("writes_piled_up")
+			continue
+		}
 		if !w.awaitDelivered(ctx, st, op, fail) {
 			return
 		}
